@@ -322,6 +322,28 @@ def shutdown_grid(rng, count):
     return out
 
 
+def window_ties(rng, count):
+    """C12/C07/C03: a full window, jobs queued behind it, running jobs that finish in
+    the same instant but zero, one or two loop iterations apart, and successors
+    waiting behind some of them"""
+    out = []
+    while len(out) < count:
+        w = rng.choice([1, 2, 2, 3])
+        k = rng.randint(w + 1, w + 4)
+        reqs = [[] for _ in range(k)]
+        for _ in range(rng.randint(1, 3)):
+            reqs.append(sorted(rng.sample(range(2, 2 + k), rng.randint(1, 2))))
+        n = len(reqs) + 1
+        base = rng.choice([1, 1, 2])
+        dur = [0] + [base if rng.random() < 0.8 else base + 1 for _ in range(k)] + \
+            [rng.choice([0, 1]) for _ in range(n - 1 - k)]
+        sc = _mk(rng, flat(reqs), dur=dur, win=[w] + [0] * (n - 1),
+                 out=["ok"] + [rng.choice(["ok"] * 5 + ["exc"]) for _ in range(n - 1)])
+        sc["harness"]["k"] = [rng.choice([0, 1, 1, 2, 3]) for _ in range(n)]
+        out.append(sc)
+    return out
+
+
 def simultaneous_failures(rng, count):
     """C02/C04/C05: several jobs of one scheduler raise in the same instant, with
     mixed critical flags, under every iteration order; a successor waits behind them"""
@@ -416,16 +438,16 @@ def _reqs_everything(shape, i):
 STRUCTURED = {
     "C01": [(joins, 0.25), (small_perms, 0.1), (nested_gap, 0.15)],
     "C02": [(tie_groups, 0.3), (simultaneous_failures, 0.15)],
-    "C03": [(window_failures, 0.4), (deadlines, 0.1)],
+    "C03": [(window_failures, 0.3), (deadlines, 0.1), (window_ties, 0.15)],
     "C04": [(critical_instants, 0.15), (deadlines, 0.2), (crit_chains, 0.15), (simultaneous_failures, 0.15)],
     "C05": [(critical_instants, 0.4), (simultaneous_failures, 0.2)],
     "C06": [(window_failures, 0.3), (simultaneous_failures, 0.1)],
-    "C07": [(window_failures, 0.3), (tie_groups, 0.1), (critical_instants, 0.1)],
+    "C07": [(window_failures, 0.25), (tie_groups, 0.1), (critical_instants, 0.1), (window_ties, 0.15)],
     "C08": [(deadlines, 0.5)],
     "C09": [(forevers, 0.5)],
     "C10": [(crit_chains, 0.3), (nested_gap, 0.2)],
     "C11": [(shutdown_grid, 0.3), (deadlines, 0.2), (nested_gap, 0.1)],
-    "C12": [(joins, 0.2), (small_perms, 0.2), (tie_groups, 0.2)],
+    "C12": [(joins, 0.15), (small_perms, 0.15), (tie_groups, 0.15), (window_ties, 0.25)],
     "C13": [(shutdown_grid, 0.5)],
     "C14": [(window_failures, 0.15), (critical_instants, 0.15)],
 }
@@ -455,7 +477,7 @@ def scenarios(prop, count, seed):
         sc["snap"] = prop == "C14"
         hrn = sc["harness"]
         n = sc["cfg"]["n"]
-        hrn["prep"] = rng.choice([0, 0, 0, 1, 2, 3])
+        hrn["prep"] = rng.choice([0, 0, 0, 1, 2, 3, 4])
         if rng.random() < stall_p:
             hrn["stall"] = [rng.choice([0, 0, 1, 2, 3]) if sc["cfg"]["kind"][j] == "job" else 0
                             for j in range(n)]
